@@ -27,6 +27,8 @@ def gen_type(r, depth, opts, top=True):
     kinds = ["num", "num", "num", "str"]
     if depth < maxd:
         kinds += ["list", "list", "list", "reglist", "opt", "opt", "rec", "tup", "union"]
+        for kind, w in sorted((opts.get("_type_bias") or {}).items()):
+            kinds += [kind] * w          # swarm: a run may favour some node kinds
     k = r.choice(kinds)
     if k == "num":
         dts = NUMERIC if not opts.get("layout_exotic_dtypes") else NUMERIC + ["complex128", "datetime64"]
@@ -87,7 +89,11 @@ def rand_scalar(r, dt):
         return r.choice([0.0, -0.0, 1.0, -1.5, 2.5, 3.14, 1e100, -1e-100, float("inf"), float("-inf"), float("nan")]) \
             if r.random() < 0.4 else r.randint(-400, 400) / 8.0
     if dt == "complex128":
-        return complex(r.randint(-4, 4) / 2.0, r.randint(-4, 4) / 2.0)
+        def part():
+            if r.random() < 0.08:
+                return r.choice([float("nan"), float("inf"), float("-inf"), -0.0])
+            return r.randint(-4, 4) / 2.0
+        return complex(part(), part())
     if dt in ("datetime64", "timedelta64"):
         return r.choice([0, 1, -1, 1600000000, 86400])
     raise AssertionError(dt)
@@ -431,7 +437,22 @@ def realize(node, spec, rz=None):
         wrong = realize(node, spec["wrong"], rz) if spec.get("wrong") else 0
         if spec.get("reordered"):
             declared_as, c = c, realize(node, spec["reordered"], rz)
-        g = node.gen_new(c, spec["declare_form"], spec["declare_length"], wrong, 0, spec["key"])
+        longer = 0
+        n = node.length(c)
+        if spec["declare_length"] and n > 0 and not virtual_keys(spec["content"]):
+            # the same items followed by one or two of them again (a generation that is longer than declared)
+            from . import ops as _ops
+            ix = realize(node, _ops.int64_spec(list(range(n)) + list(range(min(n, 2)))), rz)
+            try:
+                longer = node.op(4, c, ix, iargs=[0])
+                if node.text(longer, 0) != node.text(c, 0):
+                    # the copy is of another node class (a carried ListOffsetArray is a ListArray): a generator
+                    # whose Form changes from call to call is another matter than a surplus of items
+                    node.drop(longer)
+                    longer = 0
+            except Exception:
+                longer = 0
+        g = node.gen_new(c, spec["declare_form"], spec["declare_length"], wrong, longer, spec["key"])
         if spec.get("reordered") and spec["declare_form"]:
             node.gen_declare_form_of(g, declared_as)
         rz.gens[spec["key"]] = g
